@@ -149,7 +149,12 @@ func (r *SchemaURL) fromMap(v map[string]interface{}) error {
 				return err
 			}
 
-			*r = SchemaURL(u.String())
+			s := u.String()
+			if u.Fragment == "" && strings.HasSuffix(str, "#") {
+				// url.URL.String drops an empty fragment: keep it (e.g. http://json-schema.org/draft-04/schema#)
+				s += "#"
+			}
+			*r = SchemaURL(s)
 		}
 	}
 	return nil
